@@ -16,12 +16,12 @@ pub static DEF: PropDef = PropDef {
     id: "C07",
     level: "exploration",
     engine: "meta-cas",
-    rule: "one run = one generated history of 6..25 register (incl. re-registration of a path with another interval) / delete / complete_compaction operations applied identically to a real LocalMetadataClient and a real ObjectStoreMetadataClient, with 3..6 range lookups after every operation on both backends and on a second object-store client whose 60 s catalog cache is aged in virtual time; intervals and ranges drawn from hour boundaries +-1 ns, negative timestamps, zero-length, multi-day and (rarely) multi-year spans, inverted ranges; half of the runs inject store request failures into mutations (failed mutation must leave lookups exact); distinct = distinct hash of the operation/lookup history; non-trivial = completed AND the history contained a multi-bucket chunk, a boundary-exact touch or a re-registration",
+    rule: "one run = one generated history of 6..25 register (incl. re-registration of a path with another interval) / delete / complete_compaction operations applied identically to a real LocalMetadataClient and a real ObjectStoreMetadataClient, with 3..6 range lookups after every operation on both backends and on a second object-store client whose 60 s catalog cache is aged in virtual time; intervals and ranges drawn from hour boundaries +-1 ns, negative timestamps, zero-length, multi-day and (rarely) multi-year spans (thorough tier: 8 extra runs whose first chunk reaches from the epoch to now), inverted ranges; half of the runs inject store request failures into mutations (failed mutation must leave lookups exact); distinct = distinct hash of the operation/lookup history; non-trivial = completed AND the history contained a multi-bucket chunk, a boundary-exact touch or a re-registration",
     quick_runs: 15000,
     thorough_runs: 200_000,
-    run_cap_ms: 20_000,
+    run_cap_ms: 240_000,
     scen,
-    extra_phase: None,
+    extra_phase: Some(decades_phase),
     real: &["LocalMetadataClient", "ObjectStoreMetadataClient (catalog cache TTL, time index)", "virtual clock ages the cache"],
     stub: &["S3 = InMemory behind SimStore"],
     assumptions: &["single writer per history (the statement is about histories, concurrency is C02)"],
@@ -34,7 +34,8 @@ fn pick_ts() -> i64 {
     base_h * HOUR + off
 }
 
-fn scen(_spec: RunSpec) -> ScenFut {
+fn scen(spec: RunSpec) -> ScenFut {
+    let _spec = spec.clone();
     Box::pin(async move {
         let inner = Arc::new(InMemory::new());
         let faults = sim::w_bool(50);
@@ -55,11 +56,14 @@ fn scen(_spec: RunSpec) -> ScenFut {
         let os_b = ObjectStoreMetadataClient::new(store_b, ObjectStoreMetadataConfig::default());
         let mut model: BTreeMap<String, (i64, i64)> = BTreeMap::new();
         let npaths = sim::w_range(2, 6);
-        let nops = sim::w_range(6, 25);
+        // thorough-only phase: the first chunk reaches from the epoch to now (a sample with a zero timestamp flushed
+        // together with current ones): some 470 000 hour buckets, so such a run costs seconds per catalog write
+        let decades = spec.variant == "decades";
+        let nops = if decades { sim::w_range(3, 6) } else { sim::w_range(6, 25) };
         let mut hist = String::new();
         let mut interesting = false;
         for step in 0..nops {
-            let kind = sim::w(10);
+            let kind = if decades && step == 0 { 0 } else { sim::w(10) };
             let p = format!("data/p{}.parquet", sim::w(npaths));
             match kind {
                 0..=5 => {
@@ -72,7 +76,12 @@ fn scen(_spec: RunSpec) -> ScenFut {
                     } else {
                         span
                     };
-                    let (min, max) = (a, a + span);
+                    let (min, max) = if decades && step == 0 {
+                        sim::probe("chunk-spans-decades");
+                        (sim::w(3) as i64, sim::EPOCH_NS as i64 + sim::w(3) as i64 * HOUR)
+                    } else {
+                        (a, a + span)
+                    };
                     if model.contains_key(&p) {
                         sim::probe("re-registration");
                         interesting = true;
@@ -253,4 +262,13 @@ async fn resync(inner: &Arc<InMemory>, local: &LocalMetadataClient, model: &mut 
         let _ = local.register_chunk(&e.chunk_path, &m).await;
         model.insert(e.chunk_path.clone(), (e.min_timestamp, e.max_timestamp));
     }
+}
+
+/// A chunk spanning decades: thorough tier only (a run costs many seconds).
+fn decades_phase(co: &mut crate::core::coord::Coord) {
+    if co.tier == "quick" {
+        return;
+    }
+    let specs: Vec<RunSpec> = (0..8u64).map(|i| co.spec(9_000_000 + i, "decades")).collect();
+    co.run_batch(specs, "chunk-from-the-epoch-to-now");
 }
